@@ -16,6 +16,7 @@ import (
 	"context"
 	"fmt"
 	"math/rand/v2"
+	"sync"
 	"time"
 
 	"github.com/oasisprotocol/oasis-core/go/common/cbor"
@@ -47,6 +48,7 @@ var histModes = map[string][]string{
 	"txs+proofs":         {"raw"},
 	"txs+results":        {"raw"},
 	"txs+results-latest": {"raw"},
+	"blocks-concurrent":  {"raw"},
 	"results":            {"raw", "relabel-height"},
 	"parameters":         {"raw", "relabel-height", "x-meta-y-parameters", "x-parameters-y-meta"},
 	"state-root":         {"raw"},
@@ -57,7 +59,7 @@ var histModes = map[string][]string{
 	"watch":              {"raw", "relabel-height", "relabel-toplevel", "x-with-y-time", "x-time-subsecond"},
 }
 
-var histKinds = []string{"block", "txs", "txs+proofs", "txs+results", "txs+results-latest", "results", "parameters", "state-root", "validators", "light-block", "block-latest", "proof"}
+var histKinds = []string{"block", "blocks-concurrent", "txs", "txs+proofs", "txs+results", "txs+results-latest", "results", "parameters", "state-root", "validators", "light-block", "block-latest", "proof"}
 
 type history struct {
 	c     *checker
@@ -246,6 +248,59 @@ func (h *history) step(i int, op histOp) {
 			for k := range proofs {
 				if k < len(got) && merkle.VerifyTransaction(proofs[k], x.header.DataHash, got[k]) != nil {
 					c.r.Violation("c19/proof/honest-proof-rejected"+histSuffix, fmt.Sprintf("returned proof %d does not verify against the data hash of height %d", k, op.X), wit())
+				}
+			}
+		}
+
+	case "blocks-concurrent":
+		// Several callers ask the long-lived Core for DIFFERENT heights at the same time (an honest
+		// per-height provider): everyone must get the block of the height it asked for.
+		if op.X == op.Y {
+			return
+		}
+		rg.fb.blkAt = func(hh int64) *consensusAPI.Block {
+			if z := ch.at(hh); z != nil {
+				b := *z.blk
+				return &b
+			}
+			return nil
+		}
+		hs := []int64{op.X, op.Y, op.X, op.Y, ch.first + (op.X+op.Y)%(ch.tip-ch.first+1), op.Y, op.X, op.Y}
+		type cres struct {
+			got *consensusAPI.Block
+			err error
+			pan string
+		}
+		out := make([]cres, len(hs))
+		var wg sync.WaitGroup
+		for k := range hs {
+			wg.Add(1)
+			go func(k int) {
+				defer wg.Done()
+				defer func() {
+					if p := recover(); p != nil {
+						out[k].pan = fmt.Sprint(p)
+					}
+				}()
+				out[k].got, out[k].err = rg.core.GetBlock(ctx, hs[k])
+			}(k)
+		}
+		wg.Wait()
+		rg.fb.blkAt = nil
+		c.r.Eval(1)
+		c.r.Count("history/steps/blocks-concurrent", 1)
+		c.r.Nontrivial("history/blocks-concurrent")
+		for k, x := range out {
+			switch {
+			case x.pan != "":
+				c.r.Violation("panic/Core.GetBlock/concurrent"+histSuffix, "panic in concurrent Core.GetBlock: "+x.pan, wit())
+			case x.err != nil:
+				c.r.Violation("c19/honest-response-rejected/block/concurrent"+histSuffix, fmt.Sprintf("concurrent Core.GetBlock(%d) rejected the honest block: %v (%s)", hs[k], x.err, op), wit())
+			case x.got == nil:
+				c.r.Violation("c19/block/concurrent/nil-block"+histSuffix, fmt.Sprintf("concurrent Core.GetBlock(%d) returned nil without error", hs[k]), wit())
+			default:
+				if b, _, _ := cmpBlock(ch.at(hs[k]).blk, x.got); b != "" {
+					c.r.Violation("c19/block/concurrent/block-of-another-height"+histSuffix, fmt.Sprintf("concurrent Core.GetBlock(%d) returned a block that differs in %s from the block bound to the header of height %d (returned height %d), while other callers asked for heights %v (%s)", hs[k], b, hs[k], x.got.Height, hs, op), wit())
 				}
 			}
 		}
